@@ -45,6 +45,7 @@ def configs(tier, seed):
         out.append(dict(kind="vis", pairs=shp[0], nodes=shp[1]))
     for (frames, animals, nodes) in ([(1, 1, 2), (1, 2, 1), (2, 1, 1)] + ([(2, 2, 1)] if tier == "thorough" else [])):  # (1,2,2): a path decision came back unknown (nonlinear OKS of two 2-node animals)
         out.append(dict(kind="fixed", frames=frames, animals=animals, nodes=nodes))
+    out.append(dict(kind="fixed", frames=1, animals=1, nodes=2, per_coord=True))  # x and y of a labelled point missing independently
     out.append(dict(kind="deletion", n_gt=2, n_pr=2))
     out.append(dict(kind="float", N=2 ** 16 if tier == "quick" else 2 ** 20, N_mono=64))  # F3 with counts <= 256 did not finish in 240 s
     return out
@@ -214,14 +215,16 @@ def _run_pck(cfg):
     return rep.finish()
 
 
-def _sym_pose(name, nodes):
+def _sym_pose(name, nodes, per_coord=False):
+    """per_coord: x and y of a point may be missing independently (flags `..#nan` for x and `..y#nan` for y)"""
     import numpy as np
     from symx.xf import XF
     from symx.numpyfe import SymNd
     a = np.empty((nodes, 2), dtype=object)
     for k in range(nodes):
         fl = z3.Bool(f"{name}_{k}#nan")
-        a[k, 0], a[k, 1] = XF(z3.Real(f"{name}_{k}_x"), fl), XF(z3.Real(f"{name}_{k}_y"), fl)
+        fy = z3.Bool(f"{name}_{k}y#nan") if per_coord else fl
+        a[k, 0], a[k, 1] = XF(z3.Real(f"{name}_{k}_x"), fl), XF(z3.Real(f"{name}_{k}_y"), fy)
     return a.view(SymNd)
 
 
@@ -271,17 +274,21 @@ def _run_fixed(cfg):
     ev = _install()
     rep = Report(cfg)
     F, A, N = cfg["frames"], cfg["animals"], cfg["nodes"]
+    pc = bool(cfg.get("per_coord"))
+
+    def miss(f, a, k):  # a keypoint is missing when any of its coordinates is
+        return z3.Or(z3.Bool(f"g{f}{a}_{k}#nan"), z3.Bool(f"g{f}{a}_{k}y#nan")) if pc else z3.Bool(f"g{f}{a}_{k}#nan")
     base = []
     for f in range(F):
         for a in range(A):
-            base.append(z3.Or(*[z3.Not(z3.Bool(f"g{f}{a}_{k}#nan")) for k in range(N)]))  # at least one visible node per instance
+            base.append(z3.Or(*[z3.Not(miss(f, a, k)) for k in range(N)]))  # at least one visible node per instance
     ex = Explorer(base, timeout_ms=60000, exp_mode="uf", fork_specials=True, max_paths=20000)
 
     def path():
         pairs = []
         for f in range(F):
-            gts = [_I(f"g{f}{a}", _sym_pose(f"g{f}{a}", N)) for a in range(A)]
-            prs = [_I(f"p{f}{a}", _sym_pose(f"g{f}{a}", N), score=XF(z3.Real(f"sc{f}{a}"))) for a in range(A)]
+            gts = [_I(f"g{f}{a}", _sym_pose(f"g{f}{a}", N, pc)) for a in range(A)]
+            prs = [_I(f"p{f}{a}", _sym_pose(f"g{f}{a}", N, pc), score=XF(z3.Real(f"sc{f}{a}"))) for a in range(A)]
             pairs.append((_Frame(gts, f), _Frame(prs, f)))
         E = ev.Evaluator.__new__(ev.Evaluator)
         try:
@@ -295,7 +302,11 @@ def _run_fixed(cfg):
             return None, e, None, None, None
 
     def extract(model, env):
-        return {"gt": {f"g{f}{a}": [["nan", "nan"] if env[f"g{f}{a}_{k}#nan"] else [float(env[f"g{f}{a}_{k}_x"]), float(env[f"g{f}{a}_{k}_y"])] for k in range(N)] for f in range(F) for a in range(A)},
+        def pt(f, a, k):
+            fx = env[f"g{f}{a}_{k}#nan"]
+            fy = env[f"g{f}{a}_{k}y#nan"] if pc else fx
+            return ["nan" if fx else float(env[f"g{f}{a}_{k}_x"]), "nan" if fy else float(env[f"g{f}{a}_{k}_y"])]
+        return {"gt": {f"g{f}{a}": [pt(f, a, k) for k in range(N)] for f in range(F) for a in range(A)},
                 "scores": {f"{f}{a}": float(env[f"sc{f}{a}"]) for f in range(F) for a in range(A)}}
     eps = Fraction(1, 10 ** 9)
     for E, mo_, voc, pck, dm in ex.run(path):
@@ -326,7 +337,7 @@ def _run_fixed(cfg):
         for f in range(F):
             for a in range(A):
                 for k in range(N):
-                    vis = xf.radd(vis, xf.RIte(z3.Bool(f"g{f}{a}_{k}#nan"), Fraction(0), Fraction(1)))
+                    vis = xf.radd(vis, xf.RIte(miss(f, a, k), Fraction(0), Fraction(1)))
         mp = XF.of(pck["mPCK"])
         discharge(ex, rep, "F5-PCK-equals-visible-fraction", And(mp.fin(), rcmp("==", xf.rmul(mp.v, F * A * N), vis)), on_sat=lambda m, env: ("fixed-pck", "PCK != fraction of visible keypoints for identical predictions", extract(m, env)))
         rep.sample({"pairs": len(E.positive_pairs), "path_condition": ex.path_summary(2, 60)})
@@ -566,7 +577,7 @@ def replay(cfg, inputs, obligation):
             pck = E.pck_metrics(thresholds=np.array([1.0, 5.0]))
         except Exception as e:
             return obligation.startswith("F0"), f"raised {type(e).__name__}: {e}"
-        vis = np.mean([not np.isnan(x[0]) for v in inputs["gt"].values() for x in unjson_float(v)])
+        vis = np.mean([not (np.isnan(x[0]) or np.isnan(x[1])) for v in inputs["gt"].values() for x in unjson_float(v)])
         res = {"F1": len(E.positive_pairs) != F * A or len(E.false_negatives) != 0, "F2": abs(mo - 1) > 1e-9,
                "F3": not (np.allclose(voc["oks_voc.AP"], 1, atol=1e-9) and np.allclose(voc["oks_voc.AR"], 1, atol=1e-9)),
                "F4": bool(np.nansum(np.abs(E.dists_dict["dists"])) > 0), "F5": abs(pck["mPCK"] - vis) > 1e-9}
